@@ -204,15 +204,38 @@ def check_case(case, rnd):
     return problems, hits, nth, feats
 
 
-def pipeline_case(rnd):
-    """Particles produced by the real do_mapping (synthetic force fields of the C01 generator)."""
+def pipeline_check(rnd):
+    """Particles produced by the real do_mapping (synthetic force fields of the C01 generator), then DoAverageBead.
+    -> (problems, hits, nontrivial hashes)"""
+    from vermouth.processors.average_beads import DoAverageBead
     from . import c01
-    return c01.average_bead_probe(rnd)
+    case, mol, out = c01.average_bead_probe(rnd)
+    DoAverageBead().run_molecule(out)
+    problems, hits, nth = [], 0, []
+    for n, d in out.nodes(data=True):
+        mw = d['mapping_weights']
+        items = [(w, [float(x) for x in mol.nodes[k]['position']]) for k, w in mw.items() if mol.nodes[k].get('position') is not None]
+        tot = math.fsum(w for w, _ in items)
+        got = np.asarray(d.get('position'), dtype=float)
+        hits += 1
+        if not items or tot == 0:
+            if not np.all(np.isnan(got)):
+                problems.append(('pipeline/should-be-nan', n, got.tolist()))
+            continue
+        exp = [math.fsum(w * p[i] for w, p in items) / tot for i in range(3)]
+        if got.shape != (3,) or np.any(np.isnan(got)) or max(abs(got[i] - exp[i]) for i in range(3)) > 1e-9:
+            problems.append(('pipeline/mean', n, got.tolist(), exp, dict(mw)))
+        if len(items) >= 2 and len({w for w, _ in items}) > 1 and len(items) < len(mw):
+            nth.append(harness.h([sorted(mw.items()), exp]))
+    return problems, hits, nth, case
 
 
 def cases(tier, seed):
     nb, per = (32, 400) if tier == 'quick' else (128, 3500)
-    return [{'seed': seed, 'batch': b, 'n': per} for b in range(nb)]
+    out = [{'seed': seed, 'batch': b, 'n': per} for b in range(nb)]
+    nb2, per2 = (8, 40) if tier == 'quick' else (32, 600)
+    out += [{'seed': seed, 'batch': 1000 + b, 'n': per2, 'pipeline': True} for b in range(nb2)]
+    return out
 
 
 def run_case(params):
@@ -221,6 +244,24 @@ def run_case(params):
     feats = {}
     nth = set()
     sample = None
+    if params.get('pipeline'):
+        bt = harness.Batch()
+        for j in range(params['n']):
+            bt.total += 1
+            try:
+                with harness.sub_alarm(15):
+                    problems, h_, nt, case = pipeline_check(rnd)
+            except harness.CaseTimeout:
+                bt.inconclusive('watchdog')
+                continue
+            bt.hits += h_
+            bt.feat('particles_from_real_do_mapping', h_)
+            for x in nt:
+                bt.nontrivial(x, None)
+            if problems:
+                bt.violation(problems[0][0], 'particle position differs from the weighted mean (%s)' % problems[0][0],
+                             {'subcase': j, 'problems': problems[:4], 'case': case})
+        return bt.result()
     for j in range(params['n']):
         case = gen(rnd)
         problems, h_, nt, f = check_case(case, rnd)
